@@ -135,7 +135,9 @@ TStep ==
                       IF o.k = "Steps" THEN o.steps ELSE -1,
                       IF o.n > HeaderBytes(c) /\ (o.n - HeaderBytes(c)) % BlockBytes(c) = 0
                       THEN (o.n - HeaderBytes(c)) \div BlockBytes(c) ELSE -1)
-            /\ (tr.reader = "memmap" /\ c.fmt = "cloud_rain") =>
+            \* (when the size also fits the other variant the reader's marker
+            \* comparison may or may not reject it: content dependent, not modelled)
+            /\ (tr.reader = "memmap" /\ c.fmt = "cloud_rain" /\ ~CloudAliased(c, o.n)) =>
                   Chk(tr, p, "prefix of " \o ToString(o.n) \o " bytes: outcome differs from the cloud/rain reader model",
                       IF o.k = "Steps" THEN o.steps ELSE -1,
                       LET w == CloudOpenF(c, o.n) IN IF w.k = "Steps" THEN w.n ELSE -1)
